@@ -5,7 +5,7 @@ from ..sym import canon
 from . import backtest_rules
 from .algo_equiv import check_equiv
 from .c13 import OR_REF
-from .common import ALGOS, short
+from .common import ALGOS, CORE, short
 
 RUNPERIOD_REF = '''
 def ref(self, target):
@@ -229,3 +229,5 @@ def run(chk):
     backtest_rules.process_data(chk, "C12")
     backtest_rules.run_loop(chk, "C12")  # the schedulers are consulted on every date of a solvent strategy
     backtest_rules.benchmark_random_rules(chk)
+    from .c13 import RUN_REF
+    check_equiv(chk, "C13.R3", CORE, "Strategy", "run", RUN_REF, "strategy-run", "a strategy runs its own stack and then each child exactly once per date (a scheduler consulted twice on a date counts twice)")
